@@ -3,5 +3,5 @@
 cd "$(dirname "$0")/.."
 mkdir -p benres
 ./setup.sh > benres/setup.log 2>&1
-ls selftest/benign | xargs -P 3 -I{} sh -c 'timeout 7000 python3-vt selftest/benign_eval.py selftest/benign/{}/patch.diff > benres/{}.json 2>&1'
+ls selftest/benign | xargs -P 4 -I{} sh -c 'timeout 7000 python3-vt selftest/benign_eval.py selftest/benign/{}/patch.diff > benres/{}.json 2>&1'
 echo ALLDONE > benres/DONE
